@@ -44,6 +44,13 @@ def Sorted : List (K × α) → Prop
   | [_] => True
   | (a, _) :: (b, y) :: rest => klt a b = true ∧ Sorted ((b, y) :: rest)
 
+instance decSorted : (l : List (K × α)) → Decidable (Sorted l)
+  | [] => isTrue trivial
+  | [_] => isTrue trivial
+  | (a, _) :: (b, y) :: rest =>
+    have := decSorted ((b, y) :: rest)
+    inferInstanceAs (Decidable (klt a b = true ∧ Sorted ((b, y) :: rest)))
+
 def lookup (k : K) : List (K × α) → Option α
   | [] => none
   | (a, x) :: rest => if a = k then some x else lookup k rest
@@ -161,7 +168,7 @@ def belowHi (hi : Bound K) (k : K) : Bool :=
   | .unbounded => true
 
 /-- what `Bucket::range` must yield -/
-def range (items : List (K × Item V)) (lo hi : Bound K) : List (K × Item V) :=
+def range (items : List (K × α)) (lo hi : Bound K) : List (K × α) :=
   items.filter (fun e => aboveLo lo e.1 && belowHi hi e.1)
 
 def bucketsOf (items : List (K × Item V)) : List K :=
@@ -171,30 +178,20 @@ def kvPairsOf (items : List (K × Item V)) : List (K × V) :=
   items.filterMap (fun e => match e.2 with | .bkt => none | .val v => some (e.1, v))
 
 /-- the items at or after `k` -/
-def fromKey (items : List (K × Item V)) (k : K) : List (K × Item V) :=
+def fromKey (items : List (K × α)) (k : K) : List (K × α) :=
   items.dropWhile (fun e => klt e.1 k)
 
 /-- the last item strictly before `k` -/
-def predOf (items : List (K × Item V)) (k : K) : Option (K × Item V) :=
+def predOf (items : List (K × α)) (k : K) : Option (K × α) :=
   (items.takeWhile (fun e => klt e.1 k)).getLast?
 
 /-- what `Cursor::seek` followed by iteration may yield: `exists` says whether the key is present;
 the iteration starts at the key, or at an immediate neighbour when it is absent, and then every later
 item follows in order. -/
-def SeekOk (items : List (K × Item V)) (k : K) (exists_ : Bool) (out : List (K × Item V)) : Prop :=
+def SeekOk (items : List (K × α)) (k : K) (exists_ : Bool) (out : List (K × α)) : Prop :=
   exists_ = (lookup k items).isSome ∧
   (out = fromKey items k ∨
    (exists_ = false ∧ ∃ p, predOf items k = some p ∧ out = p :: fromKey items k))
-
-instance (items : List (K × Item V)) (k : K) (e : Bool) (out : List (K × Item V)) [DecidableEq V] :
-    Decidable (SeekOk items k e out) := by
-  unfold SeekOk
-  match h : predOf items k with
-  | none =>
-    exact decidable_of_iff (e = (lookup k items).isSome ∧ out = fromKey items k) (by simp)
-  | some p =>
-    exact decidable_of_iff (e = (lookup k items).isSome ∧ (out = fromKey items k ∨ (e = false ∧ out = p :: fromKey items k)))
-      (by simp)
 
 end
 
